@@ -4,7 +4,7 @@ from abc import ABC, abstractmethod
 
 import torch
 
-from .marginal_log_likelihood import MarginalLogLikelihood
+from .marginal_log_likelihood import _batch_prior_term, MarginalLogLikelihood
 
 
 class _ApproximateMarginalLogLikelihood(MarginalLogLikelihood, ABC):
@@ -68,7 +68,8 @@ class _ApproximateMarginalLogLikelihood(MarginalLogLikelihood, ABC):
         # Log prior term
         log_prior = torch.zeros_like(log_likelihood)
         for name, module, prior, closure, _ in self.named_priors():
-            log_prior.add_(prior.log_prob(closure(module)).sum().div(self.num_data))
+            prior_term = _batch_prior_term(prior.log_prob(closure(module)), module, log_prior.shape)
+            log_prior.add_(prior_term.div(self.num_data))
 
         if self.combine_terms:
             return log_likelihood - kl_divergence + log_prior - added_loss
